@@ -89,10 +89,11 @@ def one(ctx, res: Result, hist, cfg, batch, mode):
                     if why:
                         stale = any(ev[1] == p or ev[1].startswith(p + b"/") or ev[2].startswith(p + b"/")
                                     for p in moved_out_prefixes(run, i))
+                        pattern = "stale-in-tree-path-of-a-directory-that-was-moved-out" if stale else \
+                            pipeprops.cause_of(pipeprops.tags_of_paths_upto(run, [p_ for p_ in (ev[1], ev[2]) if p_], i))
                         res.failures.append(Failure(
                             what=f"delivered event {ev[0]}({ev[1].decode('latin1')}) is not justified: {why}", case=meta,
-                            signature={"law": "unjustified", "pattern": "stale-in-tree-path-of-a-directory-that-was-moved-out"
-                                       if stale else "other", "event": ev[0]},
+                            signature={"law": "unjustified", "pattern": pattern, "event": ev[0]},
                             observed=pipecheck.printable(ev), expected="an operation of the history that explains the event"))
                         break
     res.failures += pipecheck.thread_failures(run, stopped, meta, "C03")
